@@ -153,7 +153,7 @@ impl TableRefresh {
             only_requests_and_yields(old(tr).ev, final(tr).ev), no_yield(old(tr).ev, final(tr).ev), final(tr).ev.len() <= old(tr).ev.len() + 12, // @C18.round_is_at_most_4_queries
             // C11: every ping is counted on the pinged node's record when the table (still) knows it -- the input of "two unanswered queries make a stale node bad"
             pings_are_looked_up(old(tr).ev, final(tr).ev), // @C11.every_refresh_ping_is_counted_on_the_pinged_record
-            marks_ok(old(tr).ev, final(tr).ev, true), // @C11.every_refresh_ping_is_counted_on_the_pinged_record @C10.every_query_sent_is_recorded_on_the_queried_record
+            marks_ok(old(tr).ev, final(tr).ev, true), // @C11.every_refresh_ping_is_counted_on_the_pinged_record @C10.every_query_sent_is_recorded_on_the_queried_record @C12.a_query_we_send_is_never_recorded_as_a_query_received
             forall|i: int| old(tr).ev.len() <= i < final(tr).ev.len() && #[trigger] final(tr).ev[i] is Send ==> refresh_query(final(tr).ev[i]->Send_0, old(self).id_generator.action_id), // @C19.refresh_queries_carry_8_byte_ids_of_the_refresh_action
             forall|i: int| old(tr).ev.len() <= i < final(tr).ev.len() && #[trigger] final(tr).ev[i] is Send ==> blen(final(tr).ev[i]->Send_0) <= 1500, // @C17.refresh_queries_fit_1500_bytes
     {
@@ -199,7 +199,7 @@ impl TableRefresh {
                 *timer == *old(timer),
                 only_requests_and_yields(ev0, tr.ev), no_yield(ev0, tr.ev), tr.ev.len() <= ev0.len() + 3 * it.index@,
                 pings_are_looked_up(ev0, tr.ev), // @C11.every_refresh_ping_is_counted_on_the_pinged_record
-                marks_ok(ev0, tr.ev, true), // @C11.every_refresh_ping_is_counted_on_the_pinged_record @C10.every_query_sent_is_recorded_on_the_queried_record
+                marks_ok(ev0, tr.ev, true), // @C11.every_refresh_ping_is_counted_on_the_pinged_record @C10.every_query_sent_is_recorded_on_the_queried_record @C12.a_query_we_send_is_never_recorded_as_a_query_received
                 forall|i: int| ev0.len() <= i < tr.ev.len() && #[trigger] tr.ev[i] is Send ==> refresh_query(tr.ev[i]->Send_0, old(self).id_generator.action_id),
                 forall|i: int| ev0.len() <= i < tr.ev.len() && #[trigger] tr.ev[i] is Send ==> blen(tr.ev[i]->Send_0) <= 1500, // @C17.refresh_queries_fit_1500_bytes
         {
